@@ -684,6 +684,54 @@ def check(facts, rep, tier, cfg):
             else:
                 rep.ok("C01.R14", "fresh-client-id/%s" % b.path.split("::{")[0], w14, "every received datagram is registered before its frame is built")
         rep.floor("C01.R14", "client UDP handlers that receive and forward datagrams", k14, 2)
+        # ---- R17 a client UDP handler forwards every datagram it receives (only a failed receive / parse is skipped)
+        rep.rule("C01.R17", "client UDP handlers forward every datagram they receive: inside the receive loop the queue send of the Datagram frame can "
+                            "be skipped only on the None / Err outcome of the receive-and-parse step itself - not on a filter over the sender's "
+                            "address, a counter or a flag (datagrams of a second local socket / client would silently never reach the target)")
+        k17 = 0
+        for b in crate.bodies:
+            if "/src/client/" not in b.file or "::tests::" in b.path:
+                continue
+            sends = [bi for bi, t in b.calls() if callee(t) and callee(t)["name"] in ("send", "try_send", "reserve") and "Datagram" in callee(t)["path"]
+                     and "Sender" in callee(t)["path"]]
+            recvs = [bi for bi, t in b.calls() if is_recv14(callee(t))]
+            if not sends or not recvs:
+                continue
+            k17 += 1
+            rep.analysed(b)
+            tr17 = Tracer(facts, b)
+            S = sends[0]
+            pred_ = b.pred
+            heads = b.loop_headers_containing(S)
+            w17 = "%s (%s)" % (loc_str(b.loc), b.path)
+            bad17 = None
+            for gb in range(len(b.blocks)):
+                if b.term(gb)["k"] != "SwitchInt" or not any(gb in b.reachable_from(r, cut={S} | heads) for r in recvs) or \
+                        S not in b.reachable_from(gb, cut=heads):
+                    continue
+                if not any(b.dominates(h, gb) for h in heads):
+                    continue
+                g = guard_at(facts, b, tr17, gb)
+                for succ in set(b.succ[gb]):
+                    reach = b.reachable_from(succ, cut={S})
+                    if succ == S or S in b.reachable_from(succ, cut=heads):
+                        continue        # not committed to skipping: the send is still reachable in this iteration
+                    if not (heads & reach) and succ not in heads:
+                        continue        # leaves the loop (error return): not a silent skip
+                    vals = [v for s2, v in (g.edges if g else []) if s2 == succ]
+                    from_recv = g is not None and g.kind == "discr" and any(x.kind == "call" and (is_recv14({"name": x[6], "path": x[1]}) or is_recv14({"name": x[6], "path": x[2]})) for x in walk(g.pred))
+                    if from_recv and all(v in ("None", "Err", "Break", None) for v in vals):
+                        continue
+                    if g is not None and g.kind == "discr" and (g.adt or "").endswith("Poll"):
+                        continue
+                    bad17 = gb
+            if bad17 is not None:
+                rep.bad("C01.R17", "forwards-every-datagram/%s" % b.path.split("::{")[0], "%s (%s)" % (loc_str(b.term(bad17)["loc"]), b.path),
+                        "a received (and parsed) datagram can be skipped - the loop is re-entered without queueing its frame - on a condition that "
+                        "is not the failure of the receive / parse step: datagrams of some local senders never reach the target")
+            else:
+                rep.ok("C01.R17", "forwards-every-datagram/%s" % b.path.split("::{")[0], w17, "only a failed receive / parse skips the send")
+        rep.floor("C01.R17", "client UDP receive loops", k17, 2)
 
     # ---- R16 a datagram of a flow the server has no forwarder for always starts one
     if has_server:
@@ -717,7 +765,7 @@ def check(facts, rep, tier, cfg):
                 ins = [bi for bi, t in b.calls() if callee(t) and callee(t)["name"] == "insert" and "Datagram" in callee(t)["path"]
                        and ("HashMap" in callee(t)["path"] or "VacantEntry" in callee(t)["path"])]
                 pred = b.pred
-                heads = set(h for h in range(len(b.blocks)) if b.dominates(h, gb) and h in b.reachable_from(gb) and any(b.dominates(h, p_) for p_ in pred[h]))
+                heads = b.loop_headers_containing(gb)
                 rets = set(r for r in range(len(b.blocks)) if b.term(r)["k"] == "Return")
                 leak = None
                 for ne in none_edges:
